@@ -348,6 +348,12 @@ func (obj *Package) SetIfHas(name string, value Object, private bool) (vv *VarVa
 			if vv.Const {
 				PackagePanic(NewScope(), 0, obj, "%s is a constant and thus can't be set", name)
 			}
+			if vv.Pkg == nil {
+				// A placeholder made when code that refers to the variable
+				// was compiled before the variable was defined. With a
+				// value it is a variable of this package.
+				vv.Pkg = obj
+			}
 			if vv.Set != nil {
 				unlock = false
 				obj.mu.Unlock()
